@@ -377,6 +377,46 @@ def run_shard(ctx):
                     if d:
                         ctx.viol(f"differs:{fmt}:{ch}:after-a-{first}-conversion:{d[0]}", f"{fmt} given without a type right after a {first} conversion in the same process: {d[1]}",
                                  common.witness(form, fmt=fmt, variant=f"after-{first}", channel=ch))
+        # (2e'') cell text that looks like container syntax: a leading '#', pipes (escaped by the markdown renderer), a lone hyphen, quotes and commas
+        if i % 6 == 5:
+            ws = {k: (list(h_), [list(r_) for r_ in rows_]) for k, (h_, rows_) in sheets.items()}
+            h, rows = ws["survey"]
+            texts = ["#1 priority", "#ff0000", "# not a comment", "a | b | c", "|lead", "-", "---", "say \"hi\", ok", "a,b,,c", "#tag | #other"]
+            n_t = 0
+            for col in ("label", "hint", "default"):
+                if col in h:
+                    ci = h.index(col)
+                    for r_ in rows:
+                        if isinstance(r_[ci], str) and r_[ci] and "${" not in r_[ci] and rng.random() < 0.5 and (col != "default" or r_[0] == "text"):
+                            r_[ci] = rng.choice(texts)
+                            n_t += 1
+            if "choices" in ws and "label" in ws["choices"][0]:
+                ci = ws["choices"][0].index("label")
+                for r_ in ws["choices"][1][:3]:
+                    if isinstance(r_[ci], str):
+                        r_[ci] = rng.choice(texts)
+                        n_t += 1
+            if n_t and md_representable(ws):
+                ctx.ctr("container_syntax_text_cases")
+                compare_all(ctx, form, ws, sig, "container-syntax-text", ["md", "csv", "xlsx"], rng, all_channels=True)
+        # (2d') a supported suffix that is not the file's container, with the container named explicitly: the argument decides
+        if i % 8 == 6:
+            from .C11 import convert_odd_path
+            real = rng.choice(["xlsx", "xls"] + (["md", "csv"] if md_representable(sheets) else []))
+            wrong = rng.choice([x_ for x_ in ("xlsx", "xls", "md", "csv") if x_ != real and {x_, real} != {"xlsx", "xlsm"}])
+            try:
+                o, used_stem = convert_odd_path(sheets, real, "household", "." + wrong, dict(form.args, file_type="." + real))
+            except Exception:  # noqa: BLE001
+                o = None
+            if o is not None:
+                ref = drive.call_convert(render.to_dict(sheets, fallback_form_name=used_stem), **form.args)
+                ctx.ctr("renderings_compared")
+                ctx.ctr("wrong_suffix_with_explicit_type")
+                ctx.case(sig=f"{sig}|{real}|saved-as-{wrong}|explicit-type")
+                d = outcome_diff(ref, o)
+                if d:
+                    ctx.viol(f"differs:{real}:path-wrong-suffix-explicit-type:{d[0]}", f"[{real} content saved as 'household.{wrong}', file_type='.{real}' given] differs from dict reference in {d[0]}: {d[1]}"[:900],
+                             common.witness(form, fmt=real, channel="path", variant=f"wrong-suffix.{wrong}+explicit-type"))
         # (2f) a header cell that the spreadsheet stores as a number or a boolean (a year, a code): a column like any other unknown column
         if i % 4 == 3:
             hs = copy.deepcopy(sheets)
